@@ -205,7 +205,7 @@ def gen_wsgi(rng, enc, data, buf, sched, conf, plain=False):
         hdr['ctype'] = rng.choice(['text', 'json', 'mp', 'mp', 'MP', 'mp_nob', 'mp_q'])
     if enc.get('mp_form'):
         hdr['ctype'] = 'mp'
-    if rng.random() < 0.2 and conf in ('ctor', 'setup', 'setup_over'):
+    if rng.random() < 0.2 and conf != 'setup_default':
         hdr['emap'] = rng.choice(EMAPS)             # an application-supplied errors_map
     if rng.random() < 0.3:
         hdr['pre'] = [rng.choice(PRE_OPS) for _ in range(rng.randrange(1, 3))]
@@ -233,8 +233,8 @@ def gen_wsgi(rng, enc, data, buf, sched, conf, plain=False):
 
 def gen_seq(rng):
     """3..7 requests on two application objects with different limits, interleaved"""
-    apps = [[rng.choice(['ctor', 'setup', 'setup_over']), rng.choice([8, 12, 20, 64]), None, None],
-            [rng.choice(['ctor', 'setup']), rng.choice([9, 16, 33]), rng.choice([None, 0, 5, 12]),
+    apps = [[rng.choice(['ctor', 'setup', 'setup_over', 'kw', 'kw_setup']), rng.choice([8, 12, 20, 64]), None, None],
+            [rng.choice(['ctor', 'setup', 'kw', 'kw_split']), rng.choice([9, 16, 33]), rng.choice([None, 0, 5, 12]),
              rng.choice([None, None] + EMAPS)]]               # the second application may bring its own errors_map
     items = []
     for _ in range(rng.randrange(3, 8)):
@@ -273,7 +273,7 @@ def gen_dec(rng):
     via = 'wsgi' if rng.random() < 0.4 else 'func'
     if via == 'wsgi':
         # how the application got its configuration (the errors_map must reach the request either way)
-        conf = rng.choice(['ctor', 'ctor', 'setup', 'setup', 'setup_over', 'setup_default'])
+        conf = rng.choice(['ctor', 'ctor', 'setup', 'setup', 'setup_over', 'setup_default', 'kw', 'kw_split', 'kw_setup', 'kw_only'])
         if conf == 'setup_default':
             buf = DEFAULT_MEMFILE
         return gen_wsgi(rng, enc, data, buf, sched, conf)
@@ -482,7 +482,7 @@ def thorough():
 # --------------------------------------------------------------------------
 
 DEFAULT_MEMFILE = 100 * 1024
-CONFS = ('ctor', 'setup', 'setup_over', 'setup_default')
+CONFS = ('ctor', 'setup', 'setup_over', 'kw', 'kw_split', 'kw_setup', 'kw_only', 'setup_default')
 
 
 def make_app(conf, buf, maxb, emap=None):
@@ -493,16 +493,9 @@ def make_app(conf, buf, maxb, emap=None):
     cfg = dict(max_memfile_size=buf, max_body_size=maxb)
     if emap is not None:
         cfg['errors_map'] = build_errors_map(emap)
-    if conf == 'ctor':
-        return Ombott(cfg)
-    if conf == 'setup':
-        app = Ombott()
-        app.setup(cfg)
-        return app
-    if conf == 'setup_over':
-        app = Ombott(dict(max_memfile_size=buf + 3, max_body_size=1))
-        app.setup(cfg)
-        return app
+    if conf != 'setup_default':
+        from props.bodyA_shared import build_app
+        return build_app(conf, cfg)
     assert conf == 'setup_default' and buf == DEFAULT_MEMFILE and maxb is None
     app = Ombott(dict(max_memfile_size=5, max_body_size=2))
     app.setup()
@@ -869,6 +862,8 @@ API_SURFACE = [
     ('wsgi.input.read short reads / early EOF', 'covered by every case (FragStream schedules: full, 1-byte, random)'),
     ('BaseRequest._raise + config.errors_map', 'covered by dec/wsgi reject cases under conf ctor/setup/setup_over/setup_default'),
     ('Ombott.__init__(config) / Ombott.setup(config) / setup()', 'covered by conf ctor / setup / setup_over / setup_default'),
+    ('DefaultConfig(src, **kw) / SimpleConfig.get_from: source mapping + keyword fall-backs', 'covered by conf kw / kw_split / '
+                                                                                               'kw_setup / kw_only'),
     ('config max_memfile_size', 'covered (buffer = longest line + {0,1,7,64}, smaller, 100 KiB default)'),
     ('config max_body_size', 'covered by corpus + kind=seq; C13'),
     ('config errors_map supplied by the application', 'covered by emap cases (only RequestError / only BodyParsingError / only '
